@@ -4,6 +4,7 @@ import (
 	"bytes"
 	"encoding/json"
 	"fmt"
+	"math"
 	"reflect"
 	"sort"
 	"strings"
@@ -773,7 +774,7 @@ func jsonProblems(a *model.Claims, doc []byte, extra map[string]bool) []string {
 }
 
 func runC12(c *mon.Ctx) {
-	c.Rule("valid claims-sets of both profiles, a registered profile-2 extension and a registered extension that brings its own software-component type (stock component + one field, codecs left to the JSON library; the field must survive the round trip) and of registered extensions with unusual struct layouts (P2Claims reached through an embedded struct of unexported type; a mixin struct embedded before P2Claims) ; sets with 15..2500 (thorough: ..20000) software components, i.e. JSON documents up to several MB (text claims drawn from non-ASCII / control / quote / HTML / U+2028 strings, negative client ids, P1 with and without explicit profile claim), built directly / by setters / by decoding: (1) EncodeClaimsToJSON -> DecodeClaimsFromJSON (dispatching) gives identical Validate + getter results and type; (2) CBOR -> claims -> JSON -> claims -> CBOR reproduces the CBOR bytes; (3) every returned JSON document is also kept by the monitor and re-checked / re-decoded after six further encodes (a caller encodes several tokens before sending them); (4) the JSON document, parsed generically, has exactly the documented member names of the claims that are set, standard base64 for byte strings, no member for an absent optional claim (incl. null), no duplicate members; also through Evidence.MarshalJSON. distinct_nontrivial = distinct (profile, route, optional-subset, nonce size, component count, text-class) signatures")
+	c.Rule("valid claims-sets of both profiles, a registered profile-2 extension (its integer claim over the whole int64 range) and a registered extension that brings its own software-component type (stock component + one field, codecs left to the JSON library; the field must survive the round trip) and of registered extensions with unusual struct layouts (P2Claims reached through an embedded struct of unexported type; a mixin struct embedded before P2Claims) ; sets with 15..2500 (thorough: ..20000) software components, i.e. JSON documents up to several MB (text claims drawn from non-ASCII / control / quote / HTML / U+2028 strings, negative client ids, P1 with and without explicit profile claim), built directly / by setters / by decoding: (1) EncodeClaimsToJSON -> each of the four dispatching JSON decoders in turn (DecodeClaimsFromJSON, DecodeAndValidateClaimsFromJSON and the deprecated DecodeUnvalidatedJSONClaims / DecodeJSONClaims) gives identical Validate + getter results and type; (2) CBOR -> claims -> JSON -> claims -> CBOR reproduces the CBOR bytes; (3) every returned JSON document is also kept by the monitor and re-checked / re-decoded after six further encodes (a caller encodes several tokens before sending them); (4) the JSON document, parsed generically, has exactly the documented member names of the claims that are set, standard base64 for byte strings, no member for an absent optional claim (incl. null), no duplicate members; also through Evidence.MarshalJSON. distinct_nontrivial = distinct (profile, route, optional-subset, nonce size, component count, text-class) signatures")
 	if err := extprof.Register(extprof.ExtP2Name); err != nil {
 		c.Violation("harness/register", err.Error(), nil)
 		return
@@ -858,10 +859,25 @@ func runC12(c *mon.Ctx) {
 				continue
 			}
 			vc.sig = "ext|" + vc.sig
+			// the extension's integer claim over the whole int64 range (JSON numbers
+			// above 2^53 do not survive a detour through float64)
+			if xe, ok := x.(*extprof.ExtP2Claims); ok && g.R.Intn(3) != 0 {
+				ts := []int64{0, 1, 1<<53 - 1, 1<<53 + 1, 1721138454123456789, 1<<62 + 1, math.MaxInt64 - 1, math.MaxInt64}[g.R.Intn(8)]
+				xe.Timestamp = &ts
+				c.Count("extension-int64-claims")
+			}
 		}
 		det := func() map[string]any {
 			return map[string]any{"sig": vc.sig, "route": vc.route, "case": abstractSample(a), "wire_hex": mon.Hex(refcbor.Encode(a.WireCBOR()))}
 		}
+		// every dispatching JSON decoder in turn (the two current ones and the two deprecated aliases)
+		jsonDecoders := []struct {
+			name string
+			fn   func([]byte) (psatoken.IClaims, error)
+		}{{"DecodeClaimsFromJSON", psatoken.DecodeClaimsFromJSON}, {"DecodeAndValidateClaimsFromJSON", psatoken.DecodeAndValidateClaimsFromJSON},
+			{"DecodeUnvalidatedJSONClaims", psatoken.DecodeUnvalidatedJSONClaims}, {"DecodeJSONClaims", psatoken.DecodeJSONClaims}}
+		jd := jsonDecoders[(i/4)%4]
+		c.Count("json-decoder:" + jd.name)
 		profTag := fmt.Sprintf("P%d", a.P)
 		if a.P == 1 && a.Profile == nil {
 			profTag = "P1-no-profile-claim"
@@ -880,16 +896,24 @@ func runC12(c *mon.Ctx) {
 				return
 			}
 			c.Count("json-documents:" + profTag)
-			if probs := jsonProblems(a, doc, nil); len(probs) > 0 {
+			var extraMembers map[string]bool
+			if xe, ok := x.(*extprof.ExtP2Claims); ok && xe.Timestamp != nil {
+				extraMembers = map[string]bool{"timestamp": true}
+			}
+			if probs := jsonProblems(a, doc, extraMembers); len(probs) > 0 {
 				d := det()
 				d["json"], d["problems"] = string(doc), probs
 				c.Violation("C12/"+profTag+"/format/"+probs[0], fmt.Sprintf("emitted JSON deviates from the documented form: %v", probs), d)
 			}
-			y, err := psatoken.DecodeClaimsFromJSON(doc)
+			y, err := jd.fn(doc)
 			if err != nil {
 				d := det()
-				d["json"] = string(doc)
-				c.Violation("C12/"+profTag+"/decode-failed", "the dispatching JSON decoder rejected the JSON encoding of a valid claims-set: "+err.Error(), d)
+				d["json"], d["decoder"] = string(doc), jd.name
+				k := "C12/" + profTag + "/decode-failed"
+				if jd.name != "DecodeClaimsFromJSON" {
+					k += "/" + jd.name
+				}
+				c.Violation(k, "the dispatching JSON decoder "+jd.name+" rejected the JSON encoding of a valid claims-set: "+err.Error(), d)
 				return
 			}
 			gx, gy := obs.Observe(x), obs.Observe(y)
@@ -915,11 +939,11 @@ func runC12(c *mon.Ctx) {
 				c.Violation("C12/"+profTag+"/encode-failed", "JSON encoding of CBOR-decoded claims failed: "+err.Error(), det())
 				return
 			}
-			y2, err := psatoken.DecodeClaimsFromJSON(j2)
+			y2, err := jd.fn(j2)
 			if err != nil {
 				d := det()
-				d["json"] = string(j2)
-				c.Violation("C12/"+profTag+"/decode-failed", "CBOR->claims->JSON->claims: JSON decoding failed: "+err.Error(), d)
+				d["json"], d["decoder"] = string(j2), jd.name
+				c.Violation("C12/"+profTag+"/decode-failed", "CBOR->claims->JSON->claims: JSON decoding ("+jd.name+") failed: "+err.Error(), d)
 				return
 			}
 			c2, err := psatoken.EncodeClaimsToCBOR(y2)
@@ -943,6 +967,8 @@ func runC12(c *mon.Ctx) {
 	c.Floor("returned-bytes-rechecked", 1000)
 	c.Floor("many-component-json-roundtrips", 10)
 	c.Floor("json-documents:P1", 500)
+	c.Floor("extension-int64-claims", 100)
+	c.Floor("json-decoder:DecodeJSONClaims", 1000)
 	c.Floor("json-documents:P2", 500)
 	c.Floor("json-documents:P1-no-profile-claim", 200)
 }
